@@ -171,6 +171,23 @@ def handle (op : String) (args0 : List String) : Option String := do
       match pairs.head? with
       | some (t, u) => pure s!"false triangles=({t.1},{t.2.1},{t.2.2})&({u.1},{u.2.1},{u.2.2})-not-separated-by-any-edge-line pairs={pairs.length / 2}"
       | none => pure "false"
+  /- large outputs: the same verified checkers on a SAMPLE of the triangles (every ⌈m/k⌉-th), each sampled triangle tested
+     against ALL input points / ALL triangles — sound for the sampled triangles -/
+  | "c20.holds.delaunay_sampled" => do
+      let (n, hex, rest) ← takePoints args
+      let P ← intPoints hex
+      let ts ← takeTris rest
+      let step := Nat.max 1 (ts.length / 300)
+      let sample := (ts.zip (List.range ts.length)).filterMap fun (t, i) => if i % step == 0 then some t else none
+      pure (boolStr (delaunayOk P n sample))
+  | "c20.holds.no_overlap_sampled" => do
+      let (_, hex, rest) ← takePoints args
+      let P ← intPoints hex
+      let ts ← takeTris rest
+      let step := Nat.max 1 (ts.length / 120)
+      let sample := (ts.zip (List.range ts.length)).filterMap fun (t, i) => if i % step == 0 then some (t, i) else none
+      let all := ts.zip (List.range ts.length)
+      pure (boolStr (sample.all fun (t, i) => all.all fun (u, j) => i == j || sepOk P t u))
   | "c20.holds.no_overlap" => do
       let (_, hex, rest) ← takePoints args
       let P ← intPoints hex
